@@ -3,6 +3,7 @@ package props
 import (
 	"bytes"
 	"fmt"
+	"github.com/ontio/ontology/common/simhook"
 	"os"
 	"strings"
 
@@ -26,7 +27,7 @@ func init() {
 	simkit.Register(&simkit.Prop{
 		ID:   "C40",
 		Desc: "chain queries agree with the single-copy log of committed blocks, across header-index window, block cache, clean restarts and crash recoveries",
-		Rule: "a run = one solo ledger and the harness's log of the blocks it committed; blocks carry 0..5 ONT/ONG transfers; mostly 3..60 blocks, in about one run of 25 (quick; one of 6 thorough) a long chain of 2003..2100 mostly empty blocks that crosses the 2000-entry header index window; generated operations: commit next block (now and then after the node synced a header for that height: the block's own or a competing block's), clean restart, crash at a tape-chosen mutating disk call inside the commit (optionally torn, optionally a second crash inside recovery, hash-file tail cut) followed by reopen and re-submission of the lost block; after every block (sampled on long chains) and as a full sweep after every restart/recovery and at the end, for every checked height GetBlockHash, GetBlockByHeight, GetBlockByHash, GetHeaderByHash, GetHeaderByHeight, GetRawHeaderByHash, IsContainBlock, and for every transaction GetTransaction (+height) and IsContainTransaction are compared byte for byte with the log; tip queries (current block hash/height, header height/hash) with the log's end; heights above the tip, random hashes, bit-flipped hashes, hashes of never committed blocks/transactions (including the block lost in a crash) and hashes used with the wrong kind of query must be reported absent. Long chains always check heights 0, 1, tip-2001..tip-1999, tip, every non-empty block and random samples. non-trivial = a clean restart or crash recovery happened after a block with at least two transactions was committed and the sweep after it ran; distinct = distinct event-trace hash",
+		Rule: "a run = one solo ledger and the harness's log of the blocks it committed; in two thirds of the runs the ledger store's block cache (1..4), transaction cache (1..8) and header index window (2..21) are small (hook H8), so cache-miss paths run on short chains; blocks carry 0..5 ONT/ONG transfers; mostly 3..60 blocks, in about one run of 25 (quick; one of 6 thorough) a long chain of 2003..2100 mostly empty blocks that crosses the 2000-entry header index window; generated operations: commit next block (one in five with a reader querying while the commit is stopped before a tape-chosen disk call: a reported new height must be backed by an answerable block, header and transactions; now and then after the node synced a header for that height: the block's own or a competing block's), clean restart, crash at a tape-chosen mutating disk call inside the commit (optionally torn, optionally a second crash inside recovery, hash-file tail cut) followed by reopen and re-submission of the lost block; after every block (sampled on long chains) and as a full sweep after every restart/recovery and at the end, for every checked height GetBlockHash, GetBlockByHeight, GetBlockByHash, GetHeaderByHash, GetHeaderByHeight, GetRawHeaderByHash, IsContainBlock, and for every transaction GetTransaction (+height) and IsContainTransaction are compared byte for byte with the log; tip queries (current block hash/height, header height/hash) with the log's end; heights above the tip, random hashes, bit-flipped hashes, hashes of never committed blocks/transactions (including the block lost in a crash) and hashes used with the wrong kind of query must be reported absent. Long chains always check heights 0, 1, tip-2001..tip-1999, tip, every non-empty block and random samples. non-trivial = a clean restart or crash recovery happened after a block with at least two transactions was committed and the sweep after it ran; distinct = distinct event-trace hash",
 		Real: []string{"core/store/ledgerstore (ledger store queries, block store + block/transaction cache, header index cache, loadHeaderIndexList, recoverStore, ExecuteBlock/SubmitBlock)", "core/types block/header/transaction codecs", "core/store/leveldbstore + goleveldb on SimDisk", "smartcontract + native ONT/ONG execution"},
 		Stub: []string{"solo block producer (harness, as consensus/solo)", "disk: in-memory goleveldb storage with fail-stop/torn-write injection", "wasm JIT (stub archive)"},
 		Assumptions: []string{
@@ -62,6 +63,7 @@ type c40Run struct {
 	c     *simkit.Ctx
 	t     *simkit.Tape
 	ch    *world.Chain
+	win   uint32    // header index window in force for this run (knob)
 	recs  []*c40Rec // index = height
 	accts []c40Acct
 	nonce uint32
@@ -93,7 +95,25 @@ func c40Record(blk *types.Block) *c40Rec {
 func runC40(c *simkit.Ctx) {
 	c.Bubble(func() {
 		t := c.Tape
-		r := &c40Run{c: c, t: t, sig: "no-restart"}
+		r := &c40Run{c: c, t: t, sig: "no-restart", win: ledgerstore.HEADER_INDEX_MAX_SIZE}
+		// tuning knobs of the ledger store (hook H8): two thirds of the runs use small caches and a
+		// small header index window, so the paths behind a cache miss run in ordinary short chains
+		knobs := map[string]int{}
+		if t.Prob(2, 3) {
+			knobs["ledgerstore.blockCache"] = 1 + t.Choose(4)
+			knobs["ledgerstore.transactionCache"] = 1 + t.Choose(8)
+			knobs["ledgerstore.headerIndexMax"] = 2 + t.Choose(20)
+			r.win = uint32(knobs["ledgerstore.headerIndexMax"])
+			c.Probe("small_caches")
+			c.Logf("knobs: block cache %d, transaction cache %d, header index window %d", knobs["ledgerstore.blockCache"], knobs["ledgerstore.transactionCache"], r.win)
+		}
+		simhook.KnobFn = func(name string, def int) int {
+			if v, ok := knobs[name]; ok {
+				return v
+			}
+			return def
+		}
+		c.Defer(func() { simhook.KnobFn = nil })
 		r.ch = world.NewSoloChain(c, "node")
 		c.Must(r.ch.Open(), "open")
 		world.Quiesce()
@@ -113,7 +133,7 @@ func runC40(c *simkit.Ctx) {
 		nBlocks := 0
 		if t.Prob(1, longDen) {
 			r.long = true
-			nBlocks = int(ledgerstore.HEADER_INDEX_MAX_SIZE) + 3 + t.Choose(98)
+			nBlocks = int(r.win) + 3 + t.Choose(98)
 			c.Probe("long_chain")
 		} else {
 			nBlocks = t.Range(3, 3+t.Pick(6, 8, 4, 2)*10)
@@ -126,7 +146,7 @@ func runC40(c *simkit.Ctx) {
 		// long chains: restarts/crashes are concentrated where the window matters
 		for len(r.recs)-1 < nBlocks {
 			h := uint32(len(r.recs)) // height of the block to produce
-			nearEdge := r.long && h+4 >= ledgerstore.HEADER_INDEX_MAX_SIZE
+			nearEdge := r.long && h+4 >= r.win
 			blk := r.makeBlock()
 			crash := false
 			if crashesLeft > 0 {
@@ -139,6 +159,8 @@ func runC40(c *simkit.Ctx) {
 			if crash {
 				crashesLeft--
 				r.commitWithCrash(blk, &crashesLeft)
+			} else if !r.long && t.Prob(1, 5) {
+				r.commitWithReader(blk)
 			} else {
 				if _, err := r.ch.Commit(blk); err != nil {
 					c.Fail("block-rejected", r.sig, "ledger refuses its own block %d: %v", h, err)
@@ -158,7 +180,7 @@ func runC40(c *simkit.Ctx) {
 					r.sweep("after commit")
 				}
 			} else {
-				win := ledgerstore.HEADER_INDEX_MAX_SIZE
+				win := r.win
 				if cur+3 >= win && cur <= win+3 {
 					c.Probe("window_crossed")
 					r.checkEdges("crossing the header index window")
@@ -282,6 +304,47 @@ func (r *c40Run) makeBlock() *types.Block {
 		}
 	}
 	return blk
+}
+
+// commitWithReader: a reader queries the ledger while the commit of blk is
+// stopped right before a tape-chosen disk call (SimDisk.ArmPause). Whatever the
+// reader is told about the tip must hold together: if the new height is
+// already reported, the block, its header and its transactions must be
+// answerable; the previous tip must answer as before.
+func (r *c40Run) commitWithReader(blk *types.Block) {
+	c, t, ch := r.c, r.t, r.ch
+	world.Quiesce()
+	prev := uint32(len(r.recs) - 1)
+	reached, resume := ch.Disk.ArmPause(1 + t.Choose(12))
+	errCh := make(chan error, 1)
+	go func() {
+		_, err := ch.Commit(blk)
+		errCh <- err
+	}()
+	world.Quiesce()
+	select {
+	case <-reached:
+		c.Probe("reader_during_commit")
+		cur := ch.Store.GetCurrentBlockHeight()
+		switch cur {
+		case prev:
+			r.checkHeight(prev, "reader during commit (old tip)")
+		case prev + 1:
+			c.Probe("reader_saw_new_height_during_commit")
+			r.recs = append(r.recs, c40Record(blk))
+			r.checkHeight(cur, "reader during commit (new height already reported)")
+			r.checkHeight(prev, "reader during commit (previous block)")
+			r.recs = r.recs[:len(r.recs)-1]
+		default:
+			r.bad("tip-during-commit", "while block %d is being committed the ledger reports height %d", prev+1, cur)
+		}
+	default:
+	}
+	resume()
+	if err := <-errCh; err != nil {
+		c.Fail("block-rejected", r.sig, "ledger refuses its own block %d: %v", blk.Header.Height, err)
+	}
+	r.appendRec(blk)
 }
 
 // commitWithCrash is the crash/reopen protocol of C01 on a single ledger: the
@@ -413,7 +476,7 @@ func (r *c40Run) checkHeight(h uint32, where string) {
 	st := r.ch.Store
 	rec := r.recs[h]
 	cur := uint32(len(r.recs) - 1)
-	if cur >= ledgerstore.HEADER_INDEX_MAX_SIZE && h+ledgerstore.HEADER_INDEX_MAX_SIZE <= cur {
+	if cur >= r.win && h+r.win <= cur {
 		r.c.Probe("below_window_checked")
 	}
 	if got := st.GetBlockHash(h); got != rec.hash {
@@ -516,7 +579,7 @@ func (r *c40Run) checkTip(where string) {
 		r.bad("tip", "%s: GetCurrentHeaderHash = %x, committed %x", where, got, last.hash)
 	}
 	// above the tip
-	for _, d := range []uint32{1, 2, 1 + uint32(r.t.Choose(5000)), ledgerstore.HEADER_INDEX_MAX_SIZE, ^uint32(0) - cur} {
+	for _, d := range []uint32{1, 2, 1 + uint32(r.t.Choose(5000)), r.win, ^uint32(0) - cur} {
 		h := cur + d
 		if got := st.GetBlockHash(h); got != common.UINT256_EMPTY {
 			r.bad("unknown-reported-present", "%s: GetBlockHash(%d) above the tip %d = %x", where, h, cur, got)
@@ -604,7 +667,7 @@ func (r *c40Run) checkUnknown() {
 // checkEdges checks the heights around the lower edge of the header index window.
 func (r *c40Run) checkEdges(where string) {
 	cur := uint32(len(r.recs) - 1)
-	win := ledgerstore.HEADER_INDEX_MAX_SIZE
+	win := r.win
 	for _, d := range []uint32{win + 1, win, win - 1} {
 		if cur >= d {
 			r.checkHeight(cur-d, where+" (window edge)")
